@@ -230,6 +230,9 @@ macro_rules! numtraits {
 
             #[inline]
             fn is_multiple_of(&self, other: &Self) -> bool {
+                if other.is_zero() {
+                    return self.is_zero();
+                }
                 self.mod_floor(other).is_zero()
             }
 
